@@ -114,6 +114,9 @@ func c16Lines() []c16Line {
 		{Context: "payee", Prefix: "2001-03-01 (12) "},
 		{Context: "commodity", Prefix: "commodity "},
 		{Context: "commodity", Prefix: "    expenses:food  5 "},
+		// the commodity of a cost and of a balance assertion
+		{Context: "commodity", Prefix: "    expenses:food  5 EUR @ 3 "},
+		{Context: "commodity", Prefix: "    expenses:food  5 EUR = 7 "},
 		{Context: "tag", Prefix: "    ; "},
 		{Context: "tag", Prefix: "    expenses:food  5 EUR  ; "},
 		{Context: "tagvalue", Prefix: "    ; trip:", TagName: "trip"},
